@@ -470,8 +470,14 @@ class FitSingle(BaseFitter):
             obs = out + sky
             if return_model:
                 deterministic(f"model{self.prior.suffix}", obs)
+            # masked pixels are ignored by the loss, but an rms of 0 there would
+            # still give 0*inf = NaN gradients: hand the loss a benign value
             self.loss_func(
-                obs, self.data, self.rms, self.mask, suffix=self.prior.suffix
+                obs,
+                self.data,
+                jnp.where(self.mask, self.rms, 1.0),
+                self.mask,
+                suffix=self.prior.suffix,
             )
 
         return model
@@ -547,8 +553,14 @@ class FitMulti(BaseFitter):
 
             if return_model:
                 deterministic(f"model{self.prior.suffix}", obs)
+            # masked pixels are ignored by the loss, but an rms of 0 there would
+            # still give 0*inf = NaN gradients: hand the loss a benign value
             self.loss_func(
-                obs, self.data, self.rms, self.mask, suffix=self.prior.suffix
+                obs,
+                self.data,
+                jnp.where(self.mask, self.rms, 1.0),
+                self.mask,
+                suffix=self.prior.suffix,
             )
 
         return model
